@@ -206,6 +206,35 @@ def inverse_rules(repo, rep):
     loops = ev.loops.get(f.key, [])
     orc = Oracle(ORACLE)
     a, e2 = E.fields['semimaj'], E.fields['ecc1sq']
+    if len(loops) == 0 and isinstance(lat, Rat):
+        # a loop-free latitude: it must satisfy the geodetic equation p sin(phi) = (z + e^2 nu(phi) sin(phi)) cos(phi) itself.  The two sides
+        # are evaluated at points of the property's range (heights to 40 000 km): a one-step approximation (Bowring) is off by 1e-9 .. 1e-8
+        # of the radius there - centimetres - while an exact closed form agrees to rounding
+        phi = lat * alg.pi() / C(180)
+        X, Y, Z = Rat.sym('x'), Rat.sym('y'), Rat.sym('z')
+        pp = alg.sqrt(X * X + Y * Y)
+        nu = a / alg.sqrt(C(1) - e2 * alg.sin(phi) * alg.sin(phi))
+        lhs = pp * alg.sin(phi)
+        rhs = (Z + e2 * nu * alg.sin(phi)) * alg.cos(phi)
+        rng = {'x': (1.0e6, 4.0e7), 'y': (1.0e6, 4.0e7), 'z': (1.0e6, 4.0e7)}
+        for k_ in set(lhs.atoms(deep=True)) | set(rhs.atoms(deep=True)):
+            at_ = alg.TABLE.atoms[k_]
+            if at_.kind == 'sym' and at_.name not in rng and at_.name != 'pi':
+                rng[at_.name] = (6.3e6, 6.4e6) if 'semimaj' in at_.name else ((280.0, 320.0) if 'inversef' in at_.name else (0.1, 0.9))
+        try:
+            wit = alg.numeric_witness(lhs, rhs, rng, trials=8, rel=1e-11)
+        except RecursionError:
+            wit = None
+        if wit is not None:
+            pt, va, vb = wit
+            rep.violated('R-FORMULA', base + 'fixed-point', w, 'xyz2llh computes its latitude without iteration and the value does not satisfy the geodetic equation '
+                         'p sin(phi) = (z + e^2 nu sin(phi)) cos(phi): at x=%.4g, y=%.4g, z=%.4g the two sides are %.12g and %.12g (relative %.1e) - a one-step approximation is good to '
+                         'micrometres near the surface and off by millimetres to centimetres at the heights the property covers (to 40 000 km)' % (
+                             pt.get('x', 0), pt.get('y', 0), pt.get('z', 0), va.real, vb.real, abs(va - vb) / max(abs(va), 1e-30)),
+                         expected='the fixed point of tan(phi) = (z + e^2 nu sin(phi)) / p', actual='residual %.3g' % abs(va - vb))
+        else:
+            rep.undecided('R-FORMULA', base + 'fixed-point', w, 'xyz2llh computes its latitude without iteration; the geodetic equation holds at the sampled points, which proves nothing')
+        return
     if len(loops) != 1:
         rep.undecided('R-FORMULA', base + 'fixed-point', w, 'expected exactly one iteration loop, found %d' % len(loops))
         return
